@@ -39,6 +39,8 @@ type pProp struct {
 	restart int // restart the child process every so many cases (0: never)
 	// clockTwin: also build every -optimize-parser grammar without that flag
 	clockTwin bool
+	// extraSpecs adds hand-made parsers to every world.
+	extraSpecs func(r *rng) []*genParser
 	// collect sees every answered case (used to hand observations to a later pass).
 	collect func(batch int, gp *genParser, req *parsersim.Request, resp *parsersim.Response)
 	// post runs after the cases of a batch; it may add violations and statistics.
@@ -95,6 +97,9 @@ func runParserProp(pp *pProp, tier string) int {
 				gp.Twin = tw.Name
 				twins = append(twins, tw)
 			}
+		}
+		if pp.extraSpecs != nil {
+			specs = append(specs, pp.extraSpecs(r)...)
 		}
 		if pw != nil {
 			os.RemoveAll(pw.dir)
